@@ -96,6 +96,7 @@ def le3(x, y):
 def search(ctx):
     """implementation only: soundness against all completions (Boolean valuations certified by the
     Lean checker), monotonicity along single-input refinements, totality"""
+    live_object_stream(ctx)
     rng = ctx.rng('search')
     n_circ = ctx.scale(60, 1500)
     for k in range(n_circ):
@@ -169,6 +170,135 @@ def search(ctx):
                                     ctx.violation(op + '.non_monotone',
                                                   f'{op}: gate {l} changed from {v3.get(l)} to {v3b.get(l)} when input {ins[i]} was defined',
                                                   input={'c': j, 'asg': [[a, b] for a, b in zip(ins, part)], 'refined_input': ins[i], 'value': nv})
+
+
+def live_object_stream(ctx):
+    """one circuit OBJECT evaluated several times with in-place edits in between (inputs fixed to constants, gates added,
+    outputs changed, gates renamed or removed): every evaluation of the live object must obey the clauses for the
+    netlist the object has at that moment — the reference is a fresh object built from the object's current state"""
+    from common import circ_from_json, circ_to_json, err_name
+    from props.evalcommon import asg_out
+    from common import v3p
+    rng = ctx.rng('live')
+    for k in range(ctx.scale(150, 3000)):
+        j, info = gen.gen_circuit(rng, max_inputs=4, max_gates=10, min_inputs=1)
+        j = realize(j)
+        try:
+            c = circ_from_json(j)
+        except Exception:  # noqa: BLE001
+            continue
+        ins0 = list(j['inputs'])
+        # an assignment that names only some inputs; the others are left out (not even listed as Undefined)
+        named = [i for i in ins0 if rng.random() < 0.6]
+        asg = {i: rng.choice('FT' if rng.random() < 0.8 else 'U') for i in named}
+        history = []
+        same_dict = rng.random() < 0.3
+        held = None
+        for step in range(rng.randint(2, 5)):
+            cur = circ_to_json(c)
+            cur_in = list(cur['inputs'])
+            a_now = {i: v for i, v in asg.items() if i in cur_in}
+            labels = [g[0] for g in cur['gates']]
+            outs = None
+            op = rng.choice(['eval_lazy', 'eval_lazy', 'eval_outputs', 'eval_full'])
+            try:
+                if same_dict and held is not None and set(held) == set(a_now):
+                    mine = held
+                else:
+                    mine = {i: v3p(v) for i, v in a_now.items()}
+                held = mine
+                if op == 'eval_full':
+                    res = c.evaluate_full_circuit(dict(mine))
+                elif op == 'eval_outputs':
+                    res = c.evaluate_circuit_outputs(mine)
+                else:
+                    res = c.evaluate_circuit(mine)
+                live = dict(map(tuple, asg_out(res)))
+            except Exception as e:  # noqa: BLE001
+                live = {'__err__': err_name(e)}
+            history.append(['eval', op, sorted(a_now.items())])
+            ctx.case(json.dumps(['live', j['gates'], history]), len(history) > 1)
+            ctx.count('live:' + op)
+            ref = py_exec({'op': op, 'c': cur, 'asg': [[i, v] for i, v in a_now.items()]})
+            inp = {'start': j, 'history': history, 'current': cur, 'asg': [[i, v] for i, v in a_now.items()]}
+            if 'err' in ref:
+                if '__err__' not in live:
+                    ctx.mismatch('eval3.live_object', inp, live, ref)
+                break
+            refd = dict(map(tuple, ref['ok']))
+            if live != refd:
+                if '__err__' in live:
+                    ctx.violation(op + '.raises', f'{op} raised {live["__err__"]} on an edited object whose fresh copy evaluates',
+                                  input=inp)
+                    break
+                free = [i for i in cur_in if a_now.get(i, 'U') == 'U']
+                reported = False
+                for bits in itertools.product('FT', repeat=len(free)):
+                    full = dict(a_now)
+                    full.update(zip(free, bits))
+                    rt = py_exec({'op': 'eval_full', 'c': cur, 'asg': [[i, v] for i, v in full.items()]})
+                    if 'err' in rt:
+                        break
+                    vb = dict(map(tuple, rt['ok']))
+                    for l in labels:
+                        if not le3(live.get(l, 'U'), vb[l]):
+                            ctx.violation(op + '.unsound', f'{op} on an edited object: gate {l} reported {live.get(l)} but is {vb[l]} under a completion',
+                                          input=dict(inp, completion=list(bits)))
+                            reported = True
+                            break
+                    if reported:
+                        break
+                if not reported and not free:
+                    evaluated = labels if op == 'eval_full' else reach(cur)
+                    for l in evaluated:
+                        if op != 'eval_outputs' and live.get(l, 'U') == 'U' or (op == 'eval_outputs' and l in live and live[l] == 'U'):
+                            ctx.violation(op + '.undefined_on_total', f'{op} on an edited object: gate {l} is Undefined under a total assignment',
+                                          input=inp)
+                            reported = True
+                            break
+                if not reported:
+                    ctx.mismatch('eval3.live_object', inp, sorted(live.items()), sorted(refd.items()))
+                break
+            # an in-place edit
+            kind = rng.choice(['fix_inputs', 'fix_inputs', 'add_gate', 'set_outputs', 'rename', 'remove'])
+            try:
+                if kind == 'fix_inputs':
+                    cand = [i for i in cur_in if i not in asg] or []
+                    if not cand:
+                        continue
+                    pick = [i for i in cand if rng.random() < 0.7] or cand[:1]
+                    t = [i for i in pick if rng.random() < 0.5]
+                    f = [i for i in pick if i not in t]
+                    c.replace_inputs(t, f)
+                    history.append(['replace_inputs', t, f])
+                elif kind == 'add_gate':
+                    from cirbo.core.circuit import gate as G
+                    lab = 'live_new_%d' % step
+                    ops = [rng.choice(labels), rng.choice(labels)]
+                    ty = rng.choice(['AND', 'OR', 'XOR', 'NAND', 'GT'])
+                    c.emplace_gate(lab, getattr(G, ty), tuple(ops))
+                    c.mark_as_output(lab)
+                    history.append(['add_gate', lab, ty, ops])
+                elif kind == 'set_outputs':
+                    o = [rng.choice(labels) for _ in range(rng.randint(1, 2))]
+                    c.set_outputs(o)
+                    history.append(['set_outputs', o])
+                elif kind == 'rename':
+                    cand = [g[0] for g in cur['gates'] if g[1] != 'INPUT']
+                    if cand:
+                        old = rng.choice(cand)
+                        c.rename_gate(old, old + '_r')
+                        history.append(['rename_gate', old, old + '_r'])
+                else:
+                    used = {o for g in cur['gates'] for o in g[2]} | set(cur['outputs'])
+                    cand = [g[0] for g in cur['gates'] if g[1] != 'INPUT' and g[0] not in used]
+                    if cand:
+                        x = rng.choice(cand)
+                        c.remove_gate(x)
+                        history.append(['remove_gate', x])
+            except Exception as e:  # noqa: BLE001
+                ctx.count('live_edit_refused:' + err_name(e))
+                break
 
 
 def reach(j):
